@@ -480,6 +480,7 @@ func genForward(ctx *Ctx, prop string) {
 	}
 	if prop == "C03" {
 		pipelinedLarge(ctx, be, withList)
+		pipelinedLargeRequests(ctx, be, noList)
 		connioPhase(ctx)
 	}
 }
@@ -586,6 +587,65 @@ func cutPoints(r *hv.Rng, n int) []int {
 	}
 	sort.Ints(out)
 	return out
+}
+
+// pipelinedLargeRequests: several requests with LARGE bodies (70 KiB to 1 MiB) in flight on one client connection; the
+// first is answered with a read timeout only after the others have been sent, so it is written again.  Every copy the
+// backend receives, first attempts and retries, must be the bytes the client sent for THAT request.
+func pipelinedLargeRequests(ctx *Ctx, be *fb.Backend, p *fwProxy) {
+	r := ctx.Rng
+	const v = primitive.ProtocolVersion4
+	cl := p.client(v, "")
+	for round := 0; round < ctx.Scale(2, 12); round++ {
+		n := 3 + r.Intn(4)
+		hold := make(chan struct{})
+		var all bytes.Buffer
+		sentBy := map[string][]byte{}
+		var toks []string
+		for i := 0; i < n; i++ {
+			tok := fmt.Sprintf("lr%dx%dx%d", ctx.Seed%1000, round, i)
+			toks = append(toks, tok)
+			size := 70<<10 + r.Intn(ctx.Scale(200<<10, 1<<20))
+			blob := bytes.Repeat([]byte{byte('a' + i)}, size)
+			copy(blob, r.Bytes(64))
+			msg := &message.Query{Query: "INSERT INTO ks.t (k, v) VALUES ('tok:" + tok + "', ?)",
+				Options: &message.QueryOptions{Consistency: primitive.ConsistencyLevelOne, PositionalValues: []*primitive.Value{primitive.NewValue(blob)}}}
+			p.stream = (p.stream+1)%30000 + 1
+			raw := cl.Encode(v, p.stream, msg, nil)
+			sentBy[tok] = raw
+			all.Write(raw)
+			if i == 0 {
+				be.SetScript(tok, fb.Outcome{Kind: fb.ErrMsg, Hold: hold, Msg: &message.ReadTimeout{ErrorMessage: "scripted", Consistency: primitive.ConsistencyLevelQuorum, Received: 2, BlockFor: 2, DataPresent: false}},
+					fb.Outcome{Kind: fb.OkRows})
+			}
+		}
+		_ = cl.SendRaw(all.Bytes())
+		// the others are answered while the first is held
+		for i := 1; i < n; i++ {
+			if f, _ := cl.Next(5 * time.Second); f == nil {
+				break
+			}
+		}
+		close(hold)
+		_, _ = cl.Next(5 * time.Second)
+		time.Sleep(30 * time.Millisecond)
+		snap := be.Snapshot()
+		be.ResetLog()
+		for _, tok := range toks {
+			attempts := 0
+			for _, x := range snap {
+				if x.Token == tok && x.Kind == "query" {
+					attempts++
+					bs := int64(uint16(x.Raw[2])<<8 | uint16(x.Raw[3]))
+					ctx.Emit(hv.L(hv.B(sentBy[tok]), hv.I(bs)), hv.L(hv.B(x.Raw)), fmt.Sprintf("request:pipelined-large:%dKiB:attempt%d", len(sentBy[tok])>>10, attempts))
+				}
+			}
+			if attempts == 0 {
+				ctx.Emit(hv.L(hv.B(sentBy[tok]), hv.I(0)), hv.L(), "request:pipelined-large:never-reached-the-backend")
+			}
+			ctx.Count(fmt.Sprintf("pipelined-large-request:attempts-%d", attempts))
+		}
+	}
 }
 
 func md5Of(s string) []byte {
